@@ -236,9 +236,13 @@ ENV_METHODS = {
 }
 
 
-def env_program(s, kind, shadow):
-    """the derive sits in a module whose scope shadows `shadow` (list of names) in the type and value namespaces"""
-    inner = program(s, kind, NEUTRAL, with_check=False)
+def env_program(s, kind, shadow, nm=None, deny=False):
+    """the derive sits in a module whose scope shadows `shadow` (list of names) in the type and value namespaces;
+    deny: the module denies the naming lints and the user's item allows them for itself (its own names are its own business, the derive's bindings are not)"""
+    nm = nm or NEUTRAL
+    inner = program(s, kind, nm, with_check=False)
+    if deny:
+        inner = '#[allow(non_snake_case, non_camel_case_types, non_upper_case_globals)]\n' + inner
     sh = ''
     for n in shadow:
         if n == 'x:macros':
@@ -254,9 +258,9 @@ def env_program(s, kind, shadow):
               '    pub fn eq_any<X>(_: &X, _: &X) -> bool { true }\n    pub fn cmp_any<X>(_: &X, _: &X) -> ::core::cmp::Ordering { ::core::cmp::Ordering::Equal }\n'
               '    pub fn pcmp_same<X>(_: &X, _: &X) -> ::core::option::Option<::core::cmp::Ordering> { ::core::option::Option::Some(::core::cmp::Ordering::Equal) }\n'
               '    pub fn hash_any<X, Y: ::core::hash::Hasher>(_: &X, _: &mut Y) {}\n')
-    src = 'pub mod env {\n%s    use educe::Educe;\n%s%s}\n' % (sh, helper, '\n'.join('    ' + l for l in inner.splitlines()))
-    outer = program(s, kind, NEUTRAL, with_check=True)
-    chk = outer[outer.index('pub fn check'):].replace('Ty', 'env::Ty')
+    src = '%spub mod env {\n%s    use educe::Educe;\n%s%s}\n' % ('#[deny(non_snake_case, non_camel_case_types, non_upper_case_globals)]\n' if deny else '', sh, helper, '\n'.join('    ' + l for l in inner.splitlines()))
+    outer = program(s, kind, nm, with_check=True)
+    chk = outer[outer.index('pub fn check'):].replace(nm['ty'], 'env::' + nm['ty'])
     return src + chk
 
 
@@ -274,7 +278,8 @@ def check(v, tier):
     jobs = []   # (key, program, twin)
     raws = ['r#type', 'r#match', 'r#fn', 'r#struct', 'r#loop', 'r#dyn', 'r#async', 'r#try']
     for role, kinds in ROLES.items():
-        for ident in plain + ([] if role == 'lifetime' else raws):
+        # (field names that are not snake case: the bindings derived from them must not make the generated code warn)
+        for ident in plain + ([] if role == 'lifetime' else raws) + (['userName', 'sessionID', 'X', 'Ünï'] if role == 'field' else []):
             if role == 'lifetime' and ident in ('static',):
                 continue
             name = ident
@@ -339,6 +344,12 @@ def check(v, tier):
             cases.append(Case('C19|env|ALLMETHODS|%s|%s' % (kind, s), env_program(s, kind, sorted(m for m in ENV_METHODS if m != 'm:builder')), {'env': 'all method traits (except the builder methods, which have a state of their own)', 'set': s}, expect='accept', run=True, depth=2))
             cases.append(Case('C19|env|ALL|%s|%s' % (kind, s), env_program(s, kind, ENV_NAMES + ENV_MODS), {'env': 'all', 'set': s}, expect='accept', run=True, depth=2))
             cases.append(Case('C19|env|none|%s|%s' % (kind, s), env_program(s, kind, []), {'env': [], 'set': s}, expect='accept', run=True, depth=0))
+            # lint levels: the module denies the naming lints, the item (which allows them for itself) has fields, variants and parameters that are not snake / camel case
+            for lk, names in (('camel-field', {'f1': 'userName', 'f2': 'sessionID'}), ('camel-fields-all', {'f0': 'aB', 'f1': 'userName', 'f2': 'X'}), ('snake-type', {'ty': 'my_type', 'v0': 'first_variant', 'v1': 'second_variant'})):
+                # (generic parameters in unconventional case are a recorded C01 finding: the impl headers repeat them outside the item's own `allow`)
+                nm_ = dict(NEUTRAL)
+                nm_.update(names)
+                cases.append(Case('C19|env|x:deny-naming-lints:%s|%s|%s' % (lk, kind, s), env_program(s, kind, [], nm=nm_, deny=True), {'env': 'deny(naming lints) around an item that allows them for itself', 'names': names, 'set': s}, expect='accept', run=True, depth=2))
             # macro namespace: 26 std macros shadowed by `macro_rules!` definitions in the textual scope of the derive (not `stringify!` / `unreachable!`, which the templates call unqualified)
             cases.append(Case('C19|env|x:macros|%s|%s' % (kind, s), env_program(s, kind, ['x:macros']), {'env': 'macro_rules! decoys of 26 std macros', 'set': s}, expect='accept', run=True, depth=1))
     from .common import run_behavioural
